@@ -68,8 +68,8 @@ manifest = {
     'notes': 'Static analysis only: nothing under /repo is imported or executed by a check. Exit 0 = all structural obligations of the '
              'property hold on the current working tree; exit 1 + VIOLATION line = an obligation fails at a named construct; exit 2 + '
              'ANALYSIS-ERROR = the analysis could not be carried out. Twenty genuine defects were repaired in /repo as fix: commits and are '
-             'listed as fixed: entries in known_findings.json (they suppress nothing); one (F21, a PartBatcher inside a Group) is recorded '
-             'there as known and printed as KNOWN-FINDING lines by the C08 check, which exits 0.',
+             'listed as fixed: entries in known_findings.json (they suppress nothing); two are recorded there as known and printed as KNOWN-FINDING lines by checks that exit 0: F21 (a PartBatcher inside a Group, C08.12) '
+             'and F22 (a run started from inside an event action ends the run around it, C01.15; candidate repair in findings/F22_repair_candidate.diff).',
 }
 (VERIF / 'MANIFEST.json').write_text(json.dumps(manifest, indent=1) + '\n')
 print(f'{len(checks)} claimed, {len(na)} not claimed')
